@@ -28,17 +28,19 @@ import (
 
 func init() { drivers.Register("C11", "exploration", run) }
 
+// a server that is still computing gets this long before it is called hung (set per tier)
+var busyMax = 150 * time.Second
+
 const (
-	watch      = 20 * time.Second  // no completion within this => the line is not answered
-	idleWindow = 5 * time.Second   // ... unless the server sits idle (no CPU time used) for two such windows: then it waits for input
-	busyMax    = 150 * time.Second // a server that is still computing gets this long before it is called hung
-	bloatKiB   = 300 * 1024        // growth of the resident set during one line
-	spinTicks  = 40                // CPU ticks (1/100 s) per second that count as "still running"
+	watch      = 20 * time.Second // no completion within this => the line is not answered
+	idleWindow = 5 * time.Second  // ... unless the server sits idle (no CPU time used) for two such windows: then it waits for input
+	bloatKiB   = 300 * 1024       // growth of the resident set during one line
+	spinTicks  = 40               // CPU ticks (1/100 s) per second that count as "still running"
 )
 
 type shared struct {
 	mu        sync.Mutex
-	silent    map[string]bool // signatures whose line is known to stay unanswered (already reported)
+	silent    map[string]string // signatures whose line is known to stay unanswered (already reported): "silent" | "hang"
 	instances map[string]bool
 	classes   map[string]bool
 	perClass  map[string]int64
@@ -168,28 +170,34 @@ func (w *world) await(c *sess.Conn, line *sess.Line, sig string) (sess.Outcome, 
 	w.sh.mu.Unlock()
 	t0 := time.Now()
 	first := idleWindow
-	if known {
+	if known != "" {
 		first = 400 * time.Millisecond // the verdict for this signature exists already; do not spend the time again
 	}
 	cpu0 := sess.CPUTicks(pid)
 	o := c.Do(line, first)
+	idleFor := time.Duration(0)
 	for o.TimedOut {
 		waited := time.Since(t0)
 		cpu1 := sess.CPUTicks(pid)
-		busy := cpu1-cpu0 > int64(first/time.Second)*5+5 // more than ~5% of a core during the window
 		if cpu1 < 0 || !w.srv.Alive() {
 			return o, "", waited
 		}
-		if known && !busy {
+		if known != "" {
+			return o, known, waited
+		}
+		busy := cpu1-cpu0 > int64(first/time.Second)*5+5 // more than ~5% of a core during the window
+		if busy {
+			idleFor = 0
+		} else {
+			idleFor += first
+		}
+		if idleFor >= 2*idleWindow {
 			return o, "silent", waited
 		}
-		if !busy && waited >= 2*idleWindow {
-			return o, "silent", waited
-		}
-		if busy && waited >= busyMax {
-			return o, "hang", waited
-		}
-		if !busy && waited >= watch {
+		if waited >= busyMax {
+			if busy {
+				return o, "hang", waited
+			}
 			return o, "silent", waited
 		}
 		cpu0 = cpu1
@@ -267,9 +275,18 @@ func (w *world) step(a *sess.Act) (bool, error) {
 	if w.crashed(where) {
 		return false, nil
 	}
-	if peak-rss0 > bloatKiB {
+	bloated := peak-rss0 > bloatKiB
+	if bloated {
 		w.violate(sig+"/bloat", fmt.Sprintf("%s: the resident set of the server grew from %d MiB to %d MiB while it handled a line of %d bytes (%s)",
 			where, rss0/1024, peak/1024, line.Size, o.Brief()))
+	}
+	if kind == "hang" {
+		w.sh.mu.Lock()
+		w.sh.silent[sig] = "hang"
+		w.sh.mu.Unlock()
+		w.violate(sig+"/hang", fmt.Sprintf("%s: no completion after %v and the server is still using CPU time (resident set %d MiB)", where, waited.Round(time.Second), peak/1024))
+	}
+	if bloated || kind == "hang" {
 		w.restart()
 		return false, nil
 	}
@@ -288,13 +305,9 @@ func (w *world) step(a *sess.Act) (bool, error) {
 
 	insync := true
 	switch {
-	case kind == "hang":
-		w.violate(sig+"/hang", fmt.Sprintf("%s: no completion after %v and the server is still using CPU time", where, waited.Round(time.Second)))
-		w.restart()
-		return false, nil
 	case kind == "silent":
 		w.sh.mu.Lock()
-		w.sh.silent[sig] = true
+		w.sh.silent[sig] = "silent"
 		w.sh.mu.Unlock()
 		w.violate(sig+"/no-completion", fmt.Sprintf("%s: a complete line, but no completion arrived (%v, server idle: it waits for more input); the specification wants one of %v",
 			where, waited.Round(100*time.Millisecond), a.Res))
@@ -594,10 +607,12 @@ func walkGraph(r *ev.Run, sh *shared, m *sess.Model, seed int64) {
 
 func run(r *ev.Run, tier, replay string) {
 	seed := ev.Seed()
-	sh := &shared{silent: map[string]bool{}, instances: map[string]bool{}, classes: map[string]bool{}, perClass: map[string]int64{}, spinDone: map[string]int{}}
+	sh := &shared{silent: map[string]string{}, instances: map[string]bool{}, classes: map[string]bool{}, perClass: map[string]int64{}, spinDone: map[string]int{}}
 	heavy := []int{1000000}
+	busyMax = 45 * time.Second
 	if tier == "thorough" {
 		heavy = []int{1000000, 2000000, 4000000}
+		busyMax = 150 * time.Second
 	}
 	if replay != "" {
 		runReplay(r, sh, replay, heavy)
@@ -669,7 +684,7 @@ func run(r *ev.Run, tier, replay string) {
 	r.Set("rule", "classes: TLC enumerates exhaustively every sequence of input classes of the configured length from each start phase (NotAuth, Auth, Selected) and the whole graph of the consecutive-error counter, with the acceptable results; bytes: each class occurrence is rendered as one of several concrete byte strings chosen by the seed (VERIF_SEED); evaluations = lines sent; non-trivial = a malformed / odd / cut-off line (not the valid commands in between); distinct = distinct (class, byte string). classes covered and instances tried are reported separately (input_classes_covered, phase_class_pairs_covered, malformed_instances_tried_distinct)")
 	r.Assumptions = []string{
 		"inside a class the bytes are sampled, not exhausted: the claim is exploration, not model checking",
-		"hang: no completion although the server keeps using CPU time for 150 s; not answered: no completion and the server used no CPU time for 10 s (it waits for input); bloat: resident set +300 MiB during one line; spinning: more than 40% of a core in each of three consecutive seconds with no client connected to the worked connection",
+		"hang: no completion although the server keeps using CPU time for 45 s (quick) / 150 s (thorough); not answered: no completion and the server used no CPU time for 10 s (it waits for input); bloat: resident set +300 MiB during one line; spinning: more than 40% of a core in each of three consecutive seconds with no client connected to the worked connection",
 		"a heavy line (10^6 nesting, 1 MB atom) is only explored as the first line of a sequence, followed by one NOOP",
 		"raw TLS hello: the client gives up after sending it; whether the server answers BAD or closes is not judged",
 		"the servers run without TLS; login jail time 1 ms so that failed logins inside malformed lines do not delay later lines",
